@@ -14,6 +14,13 @@ every property it holds (Mapping API: keys(), obj[key], recursively; datetimes
 by their fields and precision settings), the id obtained by serializing,
 dropping "id" and parsing again, or the exception class."""
 import datetime as dt
+import os as _os
+import sys as _sys
+
+if _os.environ.get("VERIF_NO_JSON_ACCEL"):
+    _sys.modules["_json"] = None      # the C accelerator of the json module is not importable: pure-Python encoders
+    _sys.setrecursionlimit(20000)     # the worker's own transport (pure-Python json.loads of tagged values) recurses deeply
+
 import json
 import os
 import sys
@@ -161,10 +168,11 @@ def call(case):
             cu = case["custom"]
 
             given = cu.get("given", cu["contrib"])
+            extra = {"extension_name": cu["extension_name"]} if cu.get("extension_name") else {}
             if given is None:
-                deco = stix2.v21.CustomObservable(ty, [(n, KINDS[k]()) for n, k in cu["props"]])
+                deco = stix2.v21.CustomObservable(ty, [(n, KINDS[k]()) for n, k in cu["props"]], **extra)
             else:
-                deco = stix2.v21.CustomObservable(ty, [(n, KINDS[k]()) for n, k in cu["props"]], list(given))
+                deco = stix2.v21.CustomObservable(ty, [(n, KINDS[k]()) for n, k in cu["props"]], list(given), **extra)
 
             @deco
             class _C(object):
@@ -176,6 +184,8 @@ def call(case):
             kwargs = dict(props)
             if allow_custom:
                 kwargs["allow_custom"] = True
+            if case.get("id_none"):
+                kwargs["id"] = None            # an explicit None: the library drops None-valued arguments
             obj = cls(**kwargs)
         else:
             d = {"type": ty, "spec_version": "2.1"}
